@@ -209,18 +209,50 @@ def r_hinit_clamp(rep, f):
         sb = f.body(sfn)
         for c in tast.calls(sb["body"], fn):
             n_sites += 1
-            a = c["args"][8]
             k2 = "R-HINIT-CLAMP:%s:call" % sfn
-            src = a
-            if a.get("k") == "Path" and a.get("res") == "local":
-                lets = tast.find(sb["body"], lambda z: z.get("k") == "Let" and z["pat"].get("id") == a["id"])
-                src = lets[0]["init"] if lets and lets[0].get("init") else a
-            ok = tast.contains(src, lambda z: z.get("k") == "Field" and (z.get("fdef") or "").endswith("::max_step")) and \
-                tast.contains(src, lambda z: z.get("k") == "Path" and z.get("name") == "xend")
-            if ok:
-                rep.ok("R-HINIT-CLAMP", k2, "hmax = max_step or |xend - x|")
+            # the probe abscissa x + h (|h| <= |hmax| by the part above) stays inside [x0, xend] only when the bound handed to
+            # hinit does not exceed the span: a user max_step larger than the interval (inf included) must be capped here
+            k3 = "R-HINIT-CLAMP:%s:call-span" % sfn
+            try:
+                import rk
+                sx2, hk2 = rk.analyse_solve(f, sfn)
+            except Exception as e_:
+                rep.inconc("R-HINIT-CLAMP", k3, "solve() not analysed: %s" % e_)
+                continue
+            hat = None
+            src_file = (c.get("sp") or "").split(":")[0]
+            for a_, d_ in list(DEFS.items()):
+                if d_[0].startswith("call:methods::hinit") and len(d_[1]) >= 9 and src_file and ("#" + src_file) in a_:
+                    hat = d_
+            if hat is None:
+                rep.inconc("R-HINIT-CLAMP", k3, "the value of the hinit call was not found in the symbolic trace")
+                continue
+            hv = hat[1][8]
+            span = Poly.atom("xend") - Poly.atom("x0")
+
+            def is_span(p_):
+                inn = abs_inner(p_)
+                return inn is not None and (inn == span or inn == -span)
+            def is_user_max(p_):
+                # the solver's own step bound: max_step (through Option::map / unwrap_or / a match) or its magnitude, unscaled
+                inn = abs_inner(p_)
+                q_ = inn if inn is not None else p_
+                a0 = q_.single_atom()
+                d0 = DEFS.get(a0) if a0 else None
+                if not d0 or not (d0[0].startswith("call:std::option::Option") or d0[0] == "phi"):
+                    return False
+                from poly import reaches
+                return reaches(q_, lambda at: at == "self.max_step")
+            cf2 = ClampFacts(sx2)
+            if isinstance(hv, Poly) and cf2.bounded_by(hv, is_user_max):
+                rep.ok("R-HINIT-CLAMP", k2, "the bound handed to hinit is at most the configured max_step")
             else:
-                rep.violation("R-HINIT-CLAMP", k2, "hinit is called with hmax = %s, not max_step.unwrap_or(|xend - x|)" % tast.render(src), c.get("sp"))
+                rep.violation("R-HINIT-CLAMP", k2, "hinit is called with hmax = %r, which is not bounded by the configured max_step" % (hv,), c.get("sp"))
+            if isinstance(hv, Poly) and cf2.bounded_by(hv, is_span):
+                rep.ok("R-HINIT-CLAMP", k3, "the bound handed to hinit is at most |xend - x0|: the probe evaluation stays inside the interval")
+            else:
+                rep.violation("R-HINIT-CLAMP", k3, "hinit is called with hmax = %r, which is not bounded by the span |xend - x0|: with max_step larger than the interval (e.g. inf) "
+                              "the probe evaluation f(x0 + h, ..) of the automatic first step lies outside [x0, xend]" % (hv,), c.get("sp"))
     if n_sites < 4:
         rep.inconc("R-HINIT-CLAMP", key + ":floor", "only %d hinit call sites (expected 4)" % n_sites)
 
